@@ -453,6 +453,10 @@ def run_check(prop: str, engine_mods, tier: str, seed: int, replay: str | None =
             "partial_clauses": [c for p in parts for c in p["partial_clauses"]],
             "correspondence": [p["correspondence"] for p in parts],
         }
+        if not names:      # no theorem file yet: do not present proof-level counts
+            for k in ("obligations", "discharged", "theorems"):
+                cov.pop(k, None)
+            cov["no_theorems_yet"] = True
         notes = [n for p in parts for n in p["notes"]]
         if notes:
             cov["notes"] = notes
